@@ -429,7 +429,9 @@ func (r *runner) handleInterrupt(
 		Inputs:         make(map[string]any),
 		SkipPreHandler: map[string]bool{},
 	}
-	if state, ok := ctx.Value(stateKey{}).(*internalState); ok {
+	// only a graph that declares state owns the state found in the context: a nested graph without state of its own works on
+	// its parent's object, which the parent checkpoints (a copy restored here would silently detach the two)
+	if state, ok := ctx.Value(stateKey{}).(*internalState); ok && r.runCtx != nil {
 		cp.State = state.state
 	}
 	intInfo := &InterruptInfo{
@@ -510,7 +512,9 @@ func (r *runner) handleInterruptWithSubGraphAndRerunNodes(
 		SkipPreHandler: skipPreHandler,
 		SubGraphs:      make(map[string]*checkpoint),
 	}
-	if state, ok := ctx.Value(stateKey{}).(*internalState); ok {
+	// only a graph that declares state owns the state found in the context: a nested graph without state of its own works on
+	// its parent's object, which the parent checkpoints (a copy restored here would silently detach the two)
+	if state, ok := ctx.Value(stateKey{}).(*internalState); ok && r.runCtx != nil {
 		cp.State = state.state
 	}
 	intInfo := &InterruptInfo{
